@@ -44,3 +44,11 @@ Theorem C26_nonvacuous : exists w b',
   /\ b' <> cname_mx_compressed /\ ref_canon b' = Some w /\ length b' = 108.
 Proof. exact meaning_kept_example. Qed.
 Print Assumptions C26_nonvacuous.
+
+(* A pointer inside RDATA may target an earlier name of the SAME rdata (SOA RNAME compressed against
+   the MNAME, as BIND emits it): such a record is expanded and keeps its meaning (101 -> 133 bytes). *)
+Theorem C26_intra_rdata_pointer_example : exists w b',
+  ref_canon soa_intra_rdata = Some w /\ forward_udp soa_intra_rdata = Ok b'
+  /\ ref_canon b' = Some w /\ length b' = 133.
+Proof. exact intra_rdata_example. Qed.
+Print Assumptions C26_intra_rdata_pointer_example.
